@@ -11,7 +11,7 @@ use domain::base::message_builder::AdditionalBuilder;
 use domain::base::{Message, MessageBuilder, Name, Rtype};
 use domain::rdata::tsig::Time48;
 use domain::rdata::A;
-use domain::tsig::{ClientSequence, ClientTransaction, Key, ServerError, ServerSequence, ServerTransaction};
+use domain::tsig::{Algorithm, ClientSequence, ClientTransaction, Key, KeyName, ServerError, ServerSequence, ServerTransaction};
 use serde_json::{json, Value};
 use std::panic::{catch_unwind, AssertUnwindSafe};
 use std::str::FromStr;
@@ -82,9 +82,10 @@ enum RecV {
 fn rec_json(r: &RecV) -> Value {
     match r {
         RecV::Tsig(t) => json!({"ty": "tsig", "name": json_bytes(&t.name), "alg": json_bytes(&t.alg), "time": t.time,
-            "fudge": t.fudge, "mac": json_bytes(&t.mac), "oid": t.oid, "err": t.err, "other": json_bytes(&t.other), "raw": []}),
+            "fudge": t.fudge, "mac": json_bytes(&t.mac), "oid": t.oid, "err": t.err, "other": json_bytes(&t.other), "raw": [],
+            "cls": t.x.cls, "ttl": t.x.ttl, "rdx": json_bytes(&t.x.rdx), "rdadj": t.x.rdadj, "oladj": t.x.oladj}),
         RecV::Other(raw) => json!({"ty": "other", "name": [], "alg": [], "time": 0, "fudge": 0, "mac": [], "oid": 0,
-            "err": 0, "other": [], "raw": json_bytes(raw)}),
+            "err": 0, "other": [], "raw": json_bytes(raw), "cls": 0, "ttl": 0, "rdx": [], "rdadj": 0, "oladj": 0}),
     }
 }
 
@@ -172,10 +173,37 @@ fn main() {
         let alg = *rng.pick(&algs);
         let native = ring_alg(alg).digest_algorithm().output_len();
         let lo = std::cmp::max(10, native / 2);
-        let len = |rng: &mut Rng| -> usize {
-            match rng.below(4) { 0 => native, 1 => lo, _ => lo + rng.below((native - lo + 1) as u64) as usize }
+        // Key::new / Key::generate with arbitrary lengths, in and out of range ...
+        for _ in 0..1 {
+            let a = *rng.pick(&algs);
+            let nat = lib_alg(a).native_len() as i64;
+            let arg = |rng: &mut Rng| -> i64 {
+                match rng.below(6) { 0 => -1, 1 => 9 + rng.below(3) as i64, 2 => nat / 2 - 1 + rng.below(3) as i64, 3 => nat - 1 + rng.below(3) as i64,
+                                     _ => rng.below(nat as u64 + 3) as i64 }
+            };
+            let (mm, sl) = (arg(&mut rng), arg(&mut rng));
+            let gen = rng.chance(1, 4);
+            w.event(key_new_event(a, mm, sl, gen).0);
+        }
+        // ... and the names of algorithms
+        for _ in 0..1 {
+            w.event(alg_name_event(&mut rng));
+        }
+        // the keys of the session: whatever lengths Key::new admits
+        let mut pick_len = |rng: &mut Rng, what: &str| -> usize {
+            loop {
+                let n = match rng.below(8) { 0 | 1 => native, 2 | 3 => lo, 4 => rng.below(native as u64 + 2) as usize, _ => lo + rng.below((native - lo + 1) as u64) as usize };
+                let (mm, sl) = if what == "min" { (n as i64, -1) } else { (-1, n as i64) };
+                let (ev, ok) = key_new_event(alg, mm, sl, false);
+                if !ok || n < lo || rng.chance(1, 8) {
+                    w.event(ev);
+                }
+                if ok {
+                    return n;
+                }
+            }
         };
-        let (mut cs, mut cm, mut ss, mut sm) = (len(&mut rng), len(&mut rng), len(&mut rng), len(&mut rng));
+        let (mut cs, mut cm, mut ss, mut sm) = (pick_len(&mut rng, "sign"), pick_len(&mut rng, "min"), pick_len(&mut rng, "sign"), pick_len(&mut rng, "min"));
         if rng.chance(3, 4) {
             // compatible policies most of the time
             if cs < sm { std::mem::swap(&mut cs, &mut sm); }
@@ -309,7 +337,7 @@ fn main() {
                     // the responder may put any error code / other-data into a signed answer
                     let err = if rng.chance(1, 4) { *rng.pick(&[16u16, 17, 18, 18, 22]) } else { 0 };
                     let other = if err == 18 && rng.chance(3, 4) { u48(now_s).to_vec() } else { vec![] };
-                    let mut rr = TsigRr { name: name_wire(&sname), alg: alg_wire(alg), time: now_s, fudge: sfudge, mac: vec![],
+                    let mut rr = TsigRr { x: Shape::default(), name: name_wire(&sname), alg: alg_wire(alg), time: now_s, fudge: sfudge, mac: vec![],
                                           oid: vid, err, other };
                     let mut stub = pre.clone();
                     let ar = get_ar(&stub);
@@ -375,6 +403,55 @@ fn main() {
     println!("events {} sessions {} unreproduced_macs {}", n, sessions, nbad);
 }
 
+/// Key::new / Key::generate with the given lengths (-1 = None): the event and
+/// whether the key was admitted
+fn key_new_event(alg: &str, mm: i64, sl: i64, gen: bool) -> (Value, bool) {
+    let opt = |n: i64| if n < 0 { None } else { Some(n as usize) };
+    let name = KeyName::from_str("tsig.key.").unwrap();
+    let r: Result<Key, String> = if gen {
+        Key::generate(lib_alg(alg), &ring::rand::SystemRandom::new(), name, opt(mm), opt(sl)).map(|x| x.0).map_err(|e| format!("{:?}", e))
+    } else {
+        Key::new(lib_alg(alg), SECRET, name, opt(mm), opt(sl)).map_err(|e| format!("{:?}", e))
+    };
+    let ok = r.is_ok();
+    let (res, minlen, slen) = match r { Ok(k) => ("Ok".to_string(), k.min_mac_len(), k.signing_len()), Err(e) => (e, 0, 0) };
+    (json!({"ev": "key_new", "alg": alg, "min": mm, "sign": sl, "gen": gen, "res": res, "minlen": minlen, "slen": slen}), ok)
+}
+
+/// Algorithm::from_name / FromStr on a name made of up to four labels drawn
+/// from supported names, near misses and arbitrary labels, in random case
+fn alg_name_event(rng: &mut Rng) -> Value {
+    let labels = ["hmac-sha1", "hmac-sha256", "hmac-sha384", "hmac-sha512", "hmac-md5", "hmac-sha224", "hmac-sha25", "hmac-sha2566",
+                  "hmac", "sha256", "sig-alg", "reg", "int", "example", "x"];
+    let n = match rng.below(8) { 0 => 0, 1..=4 => 1, 5 | 6 => 2, _ => 3 + rng.below(2) };
+    let mut ls: Vec<String> = vec![];
+    for _ in 0..n {
+        let l = labels[if rng.chance(2, 3) { rng.below(4) } else { rng.below(labels.len() as u64) } as usize];
+        ls.push(if rng.chance(1, 4) { rand_case(rng, l) } else { l.to_string() });
+    }
+    let tag = |a: Option<Algorithm>| match a { Some(Algorithm::Sha1) => "sha1", Some(Algorithm::Sha256) => "sha256",
+                                               Some(Algorithm::Sha384) => "sha384", Some(Algorithm::Sha512) => "sha512", None => "none" };
+    if rng.chance(2, 3) {
+        let wire = name_wire(&(ls.join(".") + "."));
+        let name = Name::<Vec<u8>>::from_octets(wire.clone()).unwrap();
+        let r = Algorithm::from_name(&name);
+        let back = match r { Some(a) => a.to_name() == name, None => true };
+        json!({"ev": "alg_name", "name": json_bytes(&wire), "res": tag(r), "back": back})
+    } else {
+        let s = ls.join(".") + if rng.chance(1, 3) { "." } else { "" };
+        let r = Algorithm::from_str(&s).ok();
+        let back = match r { Some(a) => a.to_string().eq_ignore_ascii_case(s.trim_end_matches('.')), None => true };
+        json!({"ev": "alg_str", "s": json_bytes(s.as_bytes()), "res": tag(r), "back": back})
+    }
+}
+
+/// offset of the root label of the question name (a target for compression pointers)
+fn qname_root(hb: &[u8]) -> usize {
+    let mut p = 12;
+    while hb[p] != 0 { p += 1 + hb[p] as usize; }
+    p
+}
+
 /// Applies at most one adversary action; rep = 0 on return signals "insert an
 /// unsigned message ahead of this one".
 fn tamper(rng: &mut Rng, fl: &mut Flight, request: bool, seq: bool, full: &[u8]) -> bool {
@@ -383,7 +460,7 @@ fn tamper(rng: &mut Rng, fl: &mut Flight, request: bool, seq: bool, full: &[u8])
     }
     fl.tampered = true;
     let nb = fl.hb.len();
-    let kind = rng.below(18);
+    let kind = rng.below(22);
     // actions on header / body / record list
     match kind {
         0 => { let k = 1 + rng.below(4) as usize; fl.hb[nb - k] ^= 1 << rng.below(8); return true; }
@@ -397,8 +474,32 @@ fn tamper(rng: &mut Rng, fl: &mut Flight, request: bool, seq: bool, full: &[u8])
         _ => {}
     }
     // actions on the fields of the TSIG record
+    let root = qname_root(&fl.hb);
     let t = fl.tsig_mut().unwrap();
     match kind {
+        // the names of the record as names: labels added / removed, case, compression
+        18 | 19 => {
+            let f = if kind == 18 { &mut t.alg } else { &mut t.name };
+            let front = f[..f.len() - 1].to_vec();
+            let cat = |a: &[u8], b: &[u8]| -> Vec<u8> { let mut v = a.to_vec(); v.extend_from_slice(b); v };
+            *f = match rng.below(9) {
+                0 => cat(&front, &name_wire(*rng.pick(&["example.", "sig-alg.reg.int.", "x.", "hmac-sha256."]))),
+                1 => cat(&front, &f.clone()),
+                2 => vec![0],
+                3 => cat(&[1, b'x'], &f.clone()),
+                4 => f[f[0] as usize + 1..].to_vec(),
+                5 => f.iter().map(|c| if rng.chance(1, 2) { c.to_ascii_uppercase() } else { *c }).collect(),
+                // compressed: the root label is that of the question name
+                6 => cat(&front, &[192 | (root >> 8) as u8, root as u8]),
+                // ... or a pointer that does not point to an earlier name
+                7 => cat(&front, &[255, 255]),
+                // ... or a pointer to the question name: another name altogether
+                _ => cat(&front, &[192, 12]),
+            };
+        }
+        20 => { match rng.below(3) { 0 => t.x.cls = *rng.pick(&[1u16, 254, 3, 0]), 1 => t.x.ttl = 1 + rng.below(100000) as u32, _ => { t.x.cls = 1; t.x.ttl = 1; } } }
+        21 => { match rng.below(4) { 0 => { let n = 1 + rng.below(3) as usize; t.x.rdx = rng.bytes(n) } 1 => t.x.rdadj = 1 + rng.below(3) as i32,
+                                     2 => t.x.rdadj = -(1 + rng.below(2) as i32), _ => t.x.oladj = 1 + rng.below(8) as u16 } }
         2 => { if t.mac.is_empty() { return true; } let i = rng.below(t.mac.len() as u64) as usize; t.mac[i] ^= 1 << rng.below(8); }
         3 => { let n = rng.below(t.mac.len() as u64 + 1) as usize; t.mac.truncate(n); }
         4 => { let names = ["other.key.", "tsig.", "tsig.key.x."]; t.name = name_wire(names[rng.below(3) as usize]); }
